@@ -200,6 +200,8 @@ class ZeroLinearOperator(LinearOperator):
         raise RuntimeError("ZeroLinearOperators are not invertible!")
 
     def logdet(self: Float[LinearOperator, "*batch M N"]) -> Float[Tensor, " *batch"]:
+        if not self.is_square:
+            raise RuntimeError("logdet only operates on (batches of) square (positive semi-definite) LinearOperators.")
         return torch.log(torch.tensor(0.0))
 
     def matmul(
